@@ -205,6 +205,14 @@ class SqlalchemyRender:
                 "-": "__neg__",
             }
             arg = self.to_expression(t.args[0])
+            if (
+                t.op == '-'
+                and isinstance(t.args[0], ast.Constant)
+                and isinstance(t.args[0].value, (int, float))
+                and t.args[0].value < 0
+            ):
+                # "- -1" must not be rendered as "--1" (a comment)
+                arg = sa.sql.elements.Grouping(arg)
 
             method = opmap[t.op.upper()]
             col = getattr(arg, method)()
